@@ -43,8 +43,11 @@ def macro_part(run, paths, n):
                            stdout=subprocess.PIPE, stderr=subprocess.PIPE, text=True, timeout=1800)
         if p.returncode == 0:
             open(os.path.join(expdir, it["bin"] + ".expanded"), "w").write(p.stdout)
-        elif "proc macro panicked" in p.stderr or "proc-macro" in p.stderr:
+        elif "error: proc macro panicked" in p.stderr:
             open(os.path.join(expdir, it["bin"] + ".failed"), "w").write(p.stderr)
+        elif "error" in p.stderr and "could not compile `vprobe`" in p.stderr:
+            # asn1! expanded, a derive macro of rasn rejected the bindings (C01 decides about that): nothing to compare
+            open(os.path.join(expdir, it["bin"] + ".derive"), "w").write(p.stderr)
         else:
             core.log(p.stderr[-3000:])
             raise ToolError("building the asn1! probe failed for a reason other than the macro")
